@@ -12,6 +12,14 @@ pub fn stub_format(_args: core::fmt::Arguments<'_>) -> String {
     String::new()
 }
 
+/// Stub for the private `frost_core::serialization::short_id::<C>()` (run-time CRC-32 of `C::ID`, a 6 x 8
+/// iteration loop that would force a higher unwind bound on every codec harness).  Justified by the complete
+/// harness `codec_header_keypackage`, which runs the REAL `short_id` and proves that it emits and accepts
+/// exactly this constant.  Only valid for Toy251.
+pub fn stub_short_id<C: frost_core::Ciphersuite>() -> [u8; 4] {
+    crate::codec::TOY251_SHORT_ID
+}
+
 /// Any Toy251 scalar (0..=250).
 pub fn any_s() -> S {
     let v: u8 = kani::any();
